@@ -7,8 +7,12 @@ import sys
 import warnings
 from datetime import datetime, timedelta
 
-if "/repo/src" not in sys.path:
-    sys.path.insert(0, "/repo/src")
+import os as _os
+
+# the tree under test: /repo (registered checks); VERIF_REPO only redirects scratch experiments
+REPO_SRC = _os.environ.get("VERIF_REPO", "/repo") + "/src"
+if REPO_SRC not in sys.path:
+    sys.path.insert(0, REPO_SRC)
 
 warnings.filterwarnings("ignore")
 logging.disable(logging.CRITICAL)
